@@ -23,6 +23,7 @@ func cmdTimer(args []string) int {
 	ops := fs.Int("ops", 40, "")
 	fs.Parse(args)
 	out := newNdjson(*outPath)
+	out.watchdog(60*time.Second, func() obj { return obj{"ev": "hang"} }) // (a session's events are written when it ends: a session takes well under a second)
 	defer out.close()
 	const baseUs = 2000
 	for s := 0; s < *sessions; s++ {
